@@ -3,8 +3,9 @@ import re
 
 from ..ir import AnalysisBroken, strip_targs, qmatch
 from ..graph import Graph
+from ..symb import feasible_armed_reach
 from ..expr import access_path, path_str, reaching_defs, norm_cond, origins, leaves, defs_in_node
-from .common import strip_casts, short, comparison
+from .common import strip_casts, short, comparison, once_init
 
 UNITS = ['sdk/src/resource/resource.cc', 'sdk/src/resource/resource_detector.cc', 'sdk/src/common/env_variables.cc',
          'sdk/src/logs/logger.cc', 'sdk/src/metrics/state/metric_collector.cc', 'sdk/src/trace/span.cc', 'sdk/src/common/disabled.cc']
@@ -45,15 +46,51 @@ def rule_r1(ck, prog, rule='C18.R1'):
         ok = len(paths) == 2 and all(p == ('this', 'attributes_') for p in paths)
     ck.verdict(ok, rule, f, 'merge-inserts-receiver', ins[0] if ins else None, 'receiver\'s attributes inserted (existing keys kept)' if ok else
                'Merge does not insert the receiver\'s attributes into the copy of the argument\'s')
-    conds = [n for n in f.nodes if n['k'] == 'cond']
-    ok = False
-    if conds:
-        c = conds[0]
-        core, pol = norm_cond(f, c['cnd'])
-        cn = f.nodes[core]
-        e_ok = cn['k'] == 'call' and strip_targs(cn.get('c', '')).endswith('::empty') and access_path(f, cn['obj']) == ('param:' + other['name'], 'schema_url_')
-        a, b = (c['a'], c['b']) if pol else (c['b'], c['a'])
-        ok = e_ok and access_path(f, a) == ('this', 'schema_url_') and access_path(f, b) == ('param:' + other['name'], 'schema_url_')
+    # scenario table over "the argument's schema URL is empty": which schema URL the returned Resource is built with
+    from ..symb import explore_pinned, eval3
+    g_ = Graph(prog, f, inline=None, sync_lambdas=False)
+    oschema = ('param:' + other['name'], 'schema_url_')
+
+    def schema_pins(empty):
+        pins = {}
+        for n in f.nodes:
+            if n['k'] == 'call' and n.get('obj') is not None and access_path(f, n['obj']) == oschema:
+                last = strip_targs(n.get('c', '')).rsplit('::', 1)[-1]
+                if last == 'empty':
+                    pins[n['i']] = empty
+            c = comparison(f, n['i'])
+            if c and c[0] in ('==', '!=', '>') and strip_casts(f, c[2]).get('v') == 0:
+                l = strip_casts(f, c[1])
+                if l['k'] == 'call' and l.get('obj') is not None and access_path(f, l['obj']) == oschema and strip_targs(l.get('c', '')).rsplit('::', 1)[-1] in ('size', 'length'):
+                    pins[n['i']] = empty if c[0] == '==' else (not empty)
+        return pins
+
+    def schema_of(empty):
+        pins = schema_pins(empty)
+        out = set()
+        if not pins:
+            return {'?'}
+        for (ri, _v, env) in explore_pinned(g_, pins)[0]:
+            if ri is None:
+                out.add('?')
+                continue
+            cons_ = [f.nodes[k] for k in f.subtree(f.nodes[ri]['e']) if f.nodes[k]['k'] == 'construct' and strip_targs(f.nodes[k].get('c', '')).endswith('Resource::Resource') and len(f.nodes[k].get('args', [])) == 2]
+            if not cons_:
+                out.add('?')
+                continue
+            a = strip_casts(f, cons_[0]['args'][1])
+            if a['k'] == 'cond':
+                t = eval3(f, a['cnd'], dict(env), pins)
+                if t is None:
+                    out.add('?')
+                    continue
+                a = strip_casts(f, a['a'] if t else a['b'])
+            a = once_init(f, a['i']) if a['k'] == 'ref' else a
+            out.add(path_str(access_path(f, a['i'])) if 'i' in a else '?')
+        return out
+    conds = [n for n in f.nodes if n['k'] in ('cond', 'if')]
+    got_e, got_n = schema_of(True), schema_of(False)
+    ok = got_e == {'this.schema_url_'} and got_n == {path_str(oschema)}
     ck.verdict(ok, rule, f, 'merge-schema', conds[0] if conds else None, 'schema = other.empty ? this : other' if ok else 'the merged schema URL is not the argument\'s unless empty')
     ck.verdict(bool(f.d.get('const')), rule, f, 'merge-const', None, 'Merge is a const member taking a const reference' if f.d.get('const') else 'Merge is not a const member: it can modify its receiver')
     # Create
@@ -109,7 +146,9 @@ def rule_r1(ck, prog, rule='C18.R1'):
     ck.verdict(ok, rule, f, 'service-name-fallback-only-when-missing', writes[0].n if writes else None, 'fallback written only when service.name is missing' if ok else
                'the service.name fallback can overwrite a configured service.name (or is never written)')
     f = prog.function('sdk::resource::OTELResourceDetector::Detect')
-    finds = [n for n in f.nodes if n['k'] == 'call' and n.get('args') and f.nodes[n['args'][0]].get('v') == ord('=') and
+    # (the list parser may live in a file-local helper of the detector)
+    hosts = [f] + [prog.funcs[n['ck']] for n in f.nodes if n['k'] == 'call' and n.get('ck') in prog.funcs and prog.funcs[n['ck']].d.get('local') and prog.funcs[n['ck']].blocks]
+    finds = [n for h in hosts for n in h.nodes if n['k'] == 'call' and n.get('args') and h.nodes[n['args'][0]].get('v') == ord('=') and
              strip_targs(n.get('c', '')).rsplit('::', 1)[-1] in ('find', 'rfind', 'find_first_of', 'find_last_of')]
     ok = len(finds) == 1 and strip_targs(finds[0]['c']).rsplit('::', 1)[-1] in ('find', 'find_first_of')
     ck.verdict(ok, rule, f, 'pair-split-at-first-equals', finds[0] if finds else None, 'key=value split at the first =' if ok else
@@ -168,6 +207,23 @@ def rule_r2(ck, prog, rule='C18.R2'):
                 truth = lab[2] if pol else (not lab[2])
                 return (c[0] == '==' and truth is False) or (c[0] == '!=' and truth is True)
             return False
+        # decided by pinning: in the scenario "the parser stopped before the end of the string" (every comparison of the end pointer
+        # strto* reported says "different") and in the scenario "errno == ERANGE" no parsed value may reach a "return true"
+        endptrs = set()
+        for n in f.nodes:
+            if n['k'] == 'call' and strip_targs(n.get('c', '')).rsplit('::', 1)[-1].startswith('strto') and len(n.get('args', [])) >= 2:
+                a1 = strip_casts(f, n['args'][1])
+                if a1['k'] == 'unop' and a1['op'] == '&':
+                    endptrs.add(strip_casts(f, a1['e']).get('id'))
+        unconsumed_pins, erange_pins = {}, {}
+        for n in f.nodes:
+            c = comparison(f, n['i'])
+            if not c or c[0] not in ('==', '!='):
+                continue
+            if any(strip_casts(f, x).get('id') in endptrs for x in (c[1], c[2])) and not any(strip_casts(f, x).get('null') for x in (c[1], c[2])):
+                unconsumed_pins[n['i']] = (c[0] == '!=')
+            if any(f.nodes[i]['k'] == 'call' and strip_targs(f.nodes[i].get('c', '')) == '__errno_location' for i in f.subtree(n['i'])):
+                erange_pins[n['i']] = (c[0] == '==')
         bad = None
         n_ret = 0
         for r in g.returns():
@@ -184,7 +240,8 @@ def rule_r2(ck, prog, rule='C18.R2'):
                 # a parsed value
                 if rv == 0:
                     bad = (r, dp, 'a parsed (possibly partial) value of the out-parameter survives to a "return false"')
-                elif not (g.must_pass_edge(r, consumed) and g.must_pass_edge(r, not_erange)):
+                elif feasible_armed_reach(g, [dp], [x for x in defs if x is not dp], [r], pins=unconsumed_pins) is not None or \
+                        feasible_armed_reach(g, [dp], [x for x in defs if x is not dp], [r], pins=erange_pins) is not None:
                     bad = (r, dp, 'a parsed value reaches "return true" without the whole string having been consumed / errno checked')
         ck.verdict(bad is None, rule, f, 'out-parameter', (bad[1].n if bad else None), 'the out-parameter holds a validated parse result or the default at every return' if bad is None else
                    '%s: %s' % (nm, bad[2]), path=None if bad is None else g.describe_path(g.path(bad[1], bad[0]) or []))
